@@ -131,7 +131,7 @@ def modeOp (site : String) (u : Int) : String :=
 
 /-- `lock_create` over a lock file that already exists with permission bits `perm` and owner `uid` -/
 def lockPreOp (perm uid euid : Int) : String :=
-  let o := lock_create 0 1 0 (-1) 0 0 0 3 0 0
+  let o := lock_create 0 1 0 (-1) 0 0 0 3 0 0 0
   if fatal o then s!"fatal=1 site={fatalTag lock_create_sites o} mode={perm}" else
   if o.events.any (·.1 == "_lock_stat") then
     let s := lock_stat 0 (S_IFREG + perm) uid euid
